@@ -6,6 +6,7 @@ Observers: argv / stdin / stdout / stderr / exit status, destination files befor
 (`lv CORPUS`), i.e. from the reference models, never from lace itself."""
 import json
 import os
+import random
 import re
 import shutil
 import signal
@@ -1105,6 +1106,56 @@ def c14_transport(ctx, res):
             res.violate("C14/transport/crash", "`lace debug` crashed (exit %s)" % base.rc, {"script": scripts[si], "run": base.brief()})
     res.cls("l2:transport_scripts", len(by))
     res.samples.append({"transport_script": scripts[0]})
+
+
+# ------------------------------------------------------------------ C02 (L2: input traps on a real standard input)
+
+def c02_cli(ctx, res):
+    """GETC and IN executed by the stock binary on a real (non-terminal) standard input: the k-th
+    input trap puts the k-th byte of the input into R0, whatever else is already waiting there. The
+    program copies each byte into R1..R5 and dumps the registers; the in-process layers feed input
+    through the monitor's queue and never see the real reader."""
+    d = _dir(ctx, "c02")
+    rng = random.Random(ctx.seed * 7919 + 2)
+    inputs = [b"abcdefgh", b"a\nb\nc\nd\n", bytes([0x7f, 0x00, 0x41, 0x1b, 0x20, 0x7e]), b"xy", b"q",
+              bytes(rng.randrange(0, 0x80) for _ in range(64)), b"0123456789" * 1000]
+    for k in (1, 2, 3, 5):
+        for traps in ("getc", "in", "mixed"):
+            lines = []
+            for j in range(k):
+                t = traps if traps != "mixed" else ("getc", "in")[j % 2]
+                lines += [t, "add r%d r0 #0" % (j + 1)]
+            lines += ["reg", "halt"]
+            name = "rd_%s_%d.asm" % (traps, k)
+            _write(os.path.join(d, name), "\n".join(lines) + "\n")
+            for data in inputs:
+                for via in ("pipe", "file"):
+                    if via == "file":
+                        _write(os.path.join(d, "input.bin"), data)
+                        with open(os.path.join(d, "input.bin"), "rb") as f:
+                            r = lace(ctx, ["run", name, "--minimal"], stdin_file=f, cwd=d, timeout=30)
+                    else:
+                        r = lace(ctx, ["run", name, "--minimal"], stdin=data, cwd=d, timeout=30)
+                    res.evaluations += 1
+                    res.cls("l2:input_traps:%s:%s" % (traps, via))
+                    detail = dict(r.brief(), program=lines, input=repr(data[:80]), stdin=via)
+                    if r.rc is None or r.crashed:
+                        res.violate("C02/cli/crash", "`lace run` crashed or hung (exit %s) reading its input" % r.rc, detail)
+                        continue
+                    if len(data) < k:
+                        res.cls("l2:input_traps:input_ends_early")
+                        if r.rc != 1:
+                            res.violate("C02/cli/input-eof", "%d input traps on %d bytes of input: exit status %s, an input trap at the end of input ends the run with status 1" % (k, len(data), r.rc), detail)
+                        continue
+                    got = dict(re.findall(r"^R([0-7]) x([0-9a-f]{4})", r.out.decode("utf-8", "replace"), re.M))
+                    want = {str(j + 1): "%04x" % data[j] for j in range(k)}
+                    bad = {j: (got.get(j), w) for j, w in want.items() if got.get(j) != w}
+                    if r.rc != 0 or bad:
+                        res.violate("C02/cli/input-byte", "%d input traps (%s) on input %r from a %s: exit %s, registers (got, expected) %s"
+                                    % (k, traps, data[:12], via, r.rc, bad), detail)
+                    elif k >= 2:
+                        res.cls("l2:input_traps:second_and_later_bytes")
+    res.require(["l2:input_traps:getc:pipe", "l2:input_traps:in:file", "l2:input_traps:mixed:pipe", "l2:input_traps:second_and_later_bytes", "l2:input_traps:input_ends_early"], "L2")
 
 
 # ------------------------------------------------------------------ C10 (L2: stepping scripts through the real readers)
